@@ -244,6 +244,10 @@ func (fc *FnCtx) execAlloc(fr *Frame, st *State, t *ssa.Alloc) Val {
 			fc.freshT = map[string]types.Type{}
 		}
 		fc.freshT[ref] = et
+		if fc.freshReach == nil {
+			fc.freshReach = map[string]string{}
+		}
+		fc.freshReach[ref] = fc.curReach
 		a := &Addr{Kind: AObj, Base: ref, Root: et, T: et}
 		if g := fc.ownedGhost(et); g != "" {
 			fc.storeLoc(st, loc{name: "GH$" + g, idx: []string{ref}, sort: "Int"}, "1")
